@@ -102,9 +102,20 @@ def scenario(o, s, l0, l1, l2):
     return own, sib, lv
 
 
+@native
+def fresh_tomls(lv):
+    """Fresh REUSE.toml objects for every evaluation: a change that mutates them during a look-up must not
+    leak from one explored path into the next (and must be visible to the two-look-up obligation)."""
+    out = []
+    for i, s in enumerate(lv):
+        if s is not None:
+            out.append(ReuseTOML(version=1, source=str(ROOT / DIRS[i] / "REUSE.toml"), annotations=[_item(i, s[0], s[1])]))
+    return out
+
+
 def real(own, sib, lv):
     """Run the real Project.reuse_info_of on the scenario."""
-    tomls = [TOMLS[(i, s)] for i, s in enumerate(lv) if s is not None]
+    tomls = fresh_tomls([tuple(s) if s is not None else None for s in lv])
     gl = NestedReuseTOML(reuse_tomls=list(reversed(tomls)), source=str(ROOT)) if tomls else None
     project = pj.Project(ROOT, vcs_strategy=None, global_licensing=gl, license_map={}, licenses={})
     read = []
@@ -436,3 +447,62 @@ def explain_order(*a):
 
 
 EXPLAIN["_order"] = explain_order
+
+
+# ------------------------------------------------------------------ two look-ups on one Project: no state carried over
+FILE_B = ROOT / "a" / "b" / "g.py"
+
+
+def _twice_story(oa, ob, l0, l1):
+    own_a = OWN[_pick(oa, 4)]
+    own_b = OWN[_pick(ob, 4)]
+    lv = [SHAPES[FIXED[0]] if FIXED[0] is not None else SHAPES[_pick(l0, 13)], SHAPES[_pick(l1, 13)], None]
+    tomls = fresh_tomls([tuple(s) if s is not None else None for s in lv])
+    gl = NestedReuseTOML(reuse_tomls=list(reversed(tomls)), source=str(ROOT)) if tomls else None
+    project = pj.Project(ROOT, vcs_strategy=None, global_licensing=gl, license_map={}, licenses={})
+
+    def fake_reader(path, original_path, root):
+        kind = own_a if str(path).endswith("f.py") else own_b
+        return _info_of(kind, "own", path, original_path)
+
+    saved = (pj.reuse_info_of_file, pj.is_binary, pj._determine_license_path)
+    pj.reuse_info_of_file = fake_reader
+    pj.is_binary = lambda p: False
+    pj._determine_license_path = lambda p: Path(p)
+    try:
+        first = norm(project.reuse_info_of(FILE))
+        second = norm(project.reuse_info_of(FILE_B))
+        again = norm(project.reuse_info_of(FILE))
+    finally:
+        pj.reuse_info_of_file, pj.is_binary, pj._determine_license_path = saved
+    exp_b, _ = model(own_b, "absent", lv)
+    exp_b = sorted((a, b2, c, l, "a/b/g.py") if p == "a/b/f.py" else (a, b2, c, l, p) for a, b2, c, l, p in [(x[0].replace("f.py", "g.py") if x[0] else x[0], x[1], x[2], x[3], x[4]) for x in exp_b])
+    ok = second == exp_b and again == first
+    if not ok and known_key(own_b, "absent", lv) in CARVE and again == first:
+        ok = True
+    if not ok and known_key(own_a, "absent", lv) in CARVE and second == exp_b:
+        ok = True
+    return ok, {"own_first": own_a, "own_second": own_b, "levels": lv, "first": first, "second": second, "second_expected": exp_b, "first_again": again}
+
+
+def _twice(oa: int, ob: int, l0: int, l1: int) -> bool:
+    """
+    pre: 0 <= oa < 4 and 0 <= ob < 4 and 0 <= l0 < 13 and 0 <= l1 < 13
+    post: _
+    """
+    return _twice_story(oa, ob, l0, l1)[0]
+
+
+def _twice_reach(oa: int, ob: int, l0: int, l1: int) -> bool:
+    """
+    pre: 0 <= oa < 4 and 0 <= ob < 4 and 0 <= l0 < 13 and 0 <= l1 < 13
+    post: False
+    """
+    return _twice_story(oa, ob, l0, l1)[0]
+
+
+def explain_twice(*a):
+    return _twice_story(*a)[1]
+
+
+EXPLAIN["_twice"] = explain_twice
